@@ -13,6 +13,7 @@
    RAW ml at delta jt et <paths> T n {fn a b r}          raw offset curves of one group; libm table supplied;
                                                          answers `NEED n {fn a b}` when libm values are missing, `OOB` on an
                                                          out-of-bounds access of the model
+   TLIM ml                                               temp_lim_ for the miter limit in force at Execute
    NRM <path>                                            BuildNormals
    FOP n {op a b}                                        IEEE self-test
    ACC kind len                                          index schedule (kind 0 open path, 1 polygon, 2 joined): n in_bounds {arr idx} *)
@@ -110,6 +111,7 @@ let handle t =
       read_tbl t;
       let ((spr, s), c) = step_consts (l1 "acos") (l1 "sin") (l1 "cos") at gd in
       if !needs <> [] then show_needs () else Printf.sprintf "OK %s %s %s" (hx spr) (hx s) (hx c)
+  | "TLIM" -> hx (temp_lim (next_fl t))
   | "NRM" -> let p = read_path t in
       let ns = build_normals p in
       String.concat " " ("OK" :: string_of_int (List.length ns) :: List.map (fun (x, y) -> hx x ^ " " ^ hx y) ns)
